@@ -271,29 +271,31 @@ class Scan:
 
     def chain_roots(self, init, names):
         """True when the initialiser evaluates to the container itself: a
-        hash-returning call or a hash-typed name followed only by
-        clone/borrow/unwrap/await/? ..."""
+        chain  a.b.c(..)?.d  in which some segment is a hash-typed name (a
+        local, a field, or a call of a hash-returning function) and every
+        later segment is one of clone/borrow/unwrap/await/lock/as_ref ..."""
         t = init.strip()
         t = re.sub(r"^\(?\s*&?\s*(mut\s+)?", "", t)
-        m = re.match(r"((?:[A-Za-z_]\w*\s*(?:::|\.)\s*)*)([A-Za-z_]\w*)\s*(\(|$|\.|\?|;)", t)
-        if not m:
-            return False
-        head = m.group(2)
-        rest = t[m.end(2):]
-        is_call = rest.lstrip().startswith("(")
-        if is_call:
-            if head not in self.hash_fns:
+        segs = [x.strip() for x in split_top(t, ".")]
+        found = False
+        for k, seg in enumerate(segs):
+            m = re.match(r"((?:[A-Za-z_]\w*\s*::\s*)*)([A-Za-z_]\w*)\s*(?:::<[^()]*>)?\s*(\(.*\))?\s*\??\s*$", seg, re.S)
+            if not m:
                 return False
-            pe = match_brace(rest, rest.index("("), "(", ")")
-            rest = rest[pe:]
-        else:
-            if not (head in names or (m.group(1).strip().endswith(".") and head in self.fields)):
-                return False
-        # what follows must keep the container
-        for mm in re.finditer(r"\.\s*([A-Za-z_]\w*)", rest):
-            if mm.group(1) not in SKIP_METHODS:
-                return False
-        return True
+            name, is_call = m.group(2), m.group(3) is not None
+            if found:
+                if not (name in SKIP_METHODS and (is_call or name == "await")):
+                    return False
+                continue
+            if is_call:
+                if name in self.hash_fns:
+                    found = True
+            elif k == 0:
+                if name in names:
+                    found = True
+            elif name in self.fields:
+                found = True
+        return found
 
     def receiver(self, s, dot):
         """walk back from the `.` of an iterating method call to the name the
